@@ -17,6 +17,8 @@ func NewCallGraph() CallGraph {
 
 func (c CallGraph) Analysis(funcName string, clzs []core_domain.CodeDataStruct, lookup bool) string {
 	methodMap := BuildMethodMap(clzs)
+	// every generation starts with a full expansion budget
+	loopCount = 0
 	chain := BuildCallChain(funcName, methodMap, nil)
 
 	if lookup {
